@@ -868,6 +868,16 @@ static void build_phases(void)
         ADD(p, L_tab(0, 0, 2, 1)); ADD(p, L_tab(0, 0, 2, 3)); ADD(p, L_mid(0, 0, 2, 1, 1)); ADD(p, L_spec(0, 0, 2, 7)); ADD(p, L_spec(0, 0, 2, 9));
         ADD(p, L_pac(0, 0, 2, 15, 28, 0, 0)); ADD(p, L_pac(0, 0, 2, 15, 24, 0, 0)); ADD(p, L_pac(0, 0, 2, 14, 28, 0, 0));
 
+        /* field 1 and field 2 interleaved frame by frame: field 1 control codes as SINGLE transmissions, so that a history
+         * "f1 CR ; f2 <control code> ; f1 CR" is a code, a field 2 code in the frame between, and the code's redundant copy
+         * (47 CFR 15.119 (i): executed once - the repeat window belongs to field 1 alone) */
+        p = new_phase("fields-interleaved", 4, 5);
+        PRE(p, L_misc(0, 0, 2, RU2)); PRE(p, L_pac(0, 0, 2, 15, 0, 0, 0)); PRE(p, L_text(0, 'a', ' ')); PRE(p, L_misc(0, 0, 2, CR)); PRE(p, L_text(0, 'b', ' '));
+        PRE(p, L_misc(1, 0, 1, RU2));
+        ADD(p, L_misc(0, 0, 1, CR)); ADD(p, L_misc(0, 0, 1, BS)); ADD(p, L_misc(0, 0, 1, EOC)); ADD(p, L_tab(0, 0, 1, 1)); ADD(p, L_mid(0, 0, 1, 1, 0)); ADD(p, L_misc(0, 0, 1, RCL));
+        ADD(p, L_misc(1, 0, 1, CR)); ADD(p, L_misc(1, 0, 1, RU3)); ADD(p, L_pac(1, 0, 1, 14, 0, 0, 0)); ADD(p, L_misc(1, 1, 1, RCL));
+        ADD(p, L_text(0, 'c', ' ')); ADD(p, L_text(1, 'x', ' ')); ADD(p, L_text(0, 0, 0)); ADD(p, L_text(1, 0, 0));
+
         /* text channel with the caption channel of the same data channel */
         p = new_phase("text-t1", 4, 6);
         ADD(p, L_misc(0, 0, 2, RTD)); ADD(p, L_misc(0, 0, 2, TR)); ADD(p, L_misc(0, 0, 2, CR)); ADD(p, L_misc(0, 0, 1, CR)); ADD(p, L_misc(0, 0, 2, BS)); ADD(p, L_misc(0, 0, 2, DER));
